@@ -237,7 +237,7 @@ func (c04) Gen(rng *rand.Rand, tier string, idx int) Case {
 		n := 1
 		if mode == "cnt" || mode == "glb" {
 			n = []int{1, 2, 2, 3}[rng.Intn(4)]
-			c.Cfg = append(c.Cfg, []string{"n", strconv.Itoa(n)}, []string{"alias", strconv.Itoa(rng.Intn(8))}) // bit i: group column i is selected AS k<i> (mixes of aliased and bare columns)
+			c.Cfg = append(c.Cfg, []string{"n", strconv.Itoa(n)}, []string{"alias", strconv.Itoa(rng.Intn(8))}, []string{"bq", strconv.Itoa(rng.Intn(3) / 2)}) // bit i: group column i is selected AS k<i> (mixes of aliased and bare columns)
 		}
 		nrows := 4 + rng.Intn(14)
 		for i := 0; i < nrows; i++ {
@@ -733,12 +733,21 @@ func c04HasNegativeID(r map[string]interface{}) bool {
 // rows (ids -1…-n, a key tuple no generated value can collide with) follow the rows; the window goroutine,
 // its output channel, the batch processor and the synchronous sink are all FIFO, so the result that
 // contains id -1 is delivered after every result of the rows before it.
+// c04BQ (cfg `bq 1`): the group columns are written as back-quoted identifiers in SELECT and GROUP BY
+var c04BQ bool
+
 func c04SQL(mode string, arity, n int, alias int, rows [][]string) [][]string {
 	gf := c04GroupFields(arity)
 	names := make([]string, arity)
 	sel := make([]string, 0, arity+2)
-	for i, f := range gf {
-		names[i] = f
+	gfSQL := append([]string(nil), gf...)
+	if c04BQ {
+		for i := range gfSQL {
+			gfSQL[i] = "`" + gfSQL[i] + "`"
+		}
+	}
+	for i, f := range gfSQL {
+		names[i] = gf[i]
 		if alias&(1<<uint(i)) != 0 {
 			names[i] = fmt.Sprintf("k%d", i)
 			sel = append(sel, f+" AS "+names[i])
@@ -751,7 +760,7 @@ func c04SQL(mode string, arity, n int, alias int, rows [][]string) [][]string {
 	if mode == "glb" {
 		win = fmt.Sprintf("GLOBAL WINDOW TRIGGER WHEN count(*) >= %d", n)
 	}
-	sql := "SELECT " + strings.Join(sel, ", ") + " FROM stream GROUP BY " + strings.Join(append(append([]string(nil), gf...), win), ", ")
+	sql := "SELECT " + strings.Join(sel, ", ") + " FROM stream GROUP BY " + strings.Join(append(append([]string(nil), gfSQL...), win), ", ")
 	s := streamsql.New(streamsql.WithDiscardLog())
 	defer s.Stop()
 	if err := s.Execute(sql); err != nil {
@@ -843,6 +852,8 @@ func (c04) Exec(c Case) [][][]string {
 	arity, _ := strconv.Atoi(c04CfgVal(c, "arity", "0"))
 	n, _ := strconv.Atoi(c04CfgVal(c, "n", "1"))
 	alias, _ := strconv.Atoi(c04CfgVal(c, "alias", "0"))
+	c04BQ = c04CfgVal(c, "bq", "0") == "1"
+	defer func() { c04BQ = false }()
 	var out [][][]string
 	var rows [][]string
 	for _, op := range c.Ops {
